@@ -172,12 +172,3 @@ impl From<ValueKey> for KValue {
         key.0
     }
 }
-
-#[cfg(feature = "verif-hooks")]
-impl ValueKey {
-    /// Verification hook (feature `verif-hooks`, off by default): wraps a value without the
-    /// hashability check, so that external harnesses can build keys without an error path.
-    pub fn new_unchecked(value: KValue) -> Self {
-        Self(value)
-    }
-}
